@@ -5,7 +5,13 @@ DEFAULT_SENTINEL = "DEFAULT"
 
 
 def _expr(e):
-    return '"%s"' % e[1] if e[0] == "lit" else e[1]
+    if e[0] == "lit":
+        return '"%s"' % e[1]
+    if e[0] == "varf":
+        return '%s|vf:"%s"' % (e[1], e[2])
+    if e[0] == "tpl":
+        return '"{{ %s }}"' % e[1]
+    return e[1]
 
 
 def _kw(kwargs):
@@ -45,7 +51,7 @@ def emit_nodes(nodes, owner_name, elems_echo=True):
                     head, _kw(kwargs), flags, emit_nodes(body, owner_name)))
         elif k == "fill":
             _, nameexpr, da, df, body = n
-            head = ("name=%s" % nameexpr[1]) if nameexpr[0] == "var" else '"%s"' % nameexpr[1]
+            head = '"%s"' % nameexpr[1] if nameexpr[0] == "lit" else "name=%s" % _expr(nameexpr)
             if da:
                 head += ' data="%s"' % da
             if df:
@@ -64,6 +70,8 @@ def emit_nodes(nodes, owner_name, elems_echo=True):
             out.append('{%% vfault "%s" %%}' % n[1])
         elif k == "filled":
             out.append("{{ component_vars.is_filled.%s }}" % n[1])
+        elif k == "forloop":
+            out.append("{{ forloop.%s%s }}" % ("parentloop." * n[1], n[2]))
         elif k == "alias_data":
             out.append("{{ %s.%s }}" % (n[1], n[2]))
         elif k == "alias_default":
